@@ -190,6 +190,13 @@ class Controller(object):
             return self.send_error(mid, cid, msg, error_, cast=cast,
                                    errno=errors.UNKNOWN_COMMAND)
 
+        if not isinstance(properties, dict):
+            # (commands look their arguments up with `in` and .get(): a list
+            # or a string got as far as being executed before it failed)
+            return self.send_error(mid, cid, msg, "'properties' must be an "
+                                   "object", cast=cast,
+                                   errno=errors.MESSAGE_ERROR)
+
         try:
             cmd.validate(properties)
             resp = cmd.execute(self.arbiter, properties)
